@@ -34,7 +34,7 @@ import json
 import random
 
 from pymbolic import var
-from pymbolic.primitives import Comparison, LogicalNot
+from pymbolic.primitives import Comparison, LogicalNot, LogicalAnd, LogicalOr
 
 from dagrt import language as lang
 from dagrt.codegen import dag_ast as A
@@ -58,6 +58,8 @@ def build_guard(g):
         return Comparison(var(g[1]), "<", g[2])
     if g[0] == "==":
         return Comparison(var(g[1]), "==", g[2])
+    if g[0] in ("and", "or"):
+        return (LogicalAnd if g[0] == "and" else LogicalOr)(tuple(build_guard(x) for x in g[1:]))
     raise ValueError("bad guard %r" % (g,))
 
 
@@ -158,6 +160,9 @@ def atoms_of_guard(g, acc):
         acc.add(str(build_guard(g)))
     elif g[0] == "!":
         atoms_of_guard(g[1], acc)
+    elif g[0] in ("and", "or"):
+        for x in g[1:]:
+            atoms_of_guard(x, acc)
     else:
         acc.add(str(build_guard(g)))
 
@@ -169,6 +174,10 @@ def ev_json(g, val):
         return False
     if isinstance(g, (list, tuple)) and g[0] == "!":
         return not ev_json(g[1], val)
+    if isinstance(g, (list, tuple)) and g[0] == "and":
+        return all(ev_json(x, val) for x in g[1:])
+    if isinstance(g, (list, tuple)) and g[0] == "or":
+        return any(ev_json(x, val) for x in g[1:])
     return val[str(build_guard(g))]
 
 
@@ -189,6 +198,10 @@ def ev_real(c, val):
         return c
     if isinstance(c, LogicalNot):
         return not ev_real(c.child, val)
+    if isinstance(c, LogicalAnd):
+        return all(ev_real(x, val) for x in c.children)
+    if isinstance(c, LogicalOr):
+        return any(ev_real(x, val) for x in c.children)
     k = str(c)
     if k in val:
         return val[k]
@@ -627,6 +640,21 @@ def bounded(payload):
                     run({"stmts": st}, "nested_negations")
                     run({"stmts": [dict(st[1], id="s0", deps=[]), dict(st[0], id="s1", deps=["s0"] if dep else [])]},
                         "nested_negations")
+    # compound guards (a or (b and c), (a or b) and c, not (a and b), nested conjunctions / disjunctions): a statement runs
+    # exactly when the VALUE of its guard is true, however the lowering prints or regroups the guard
+    comp = [["or", "c1", ["and", "c2", "c3"]], ["and", ["or", "c1", "c2"], "c3"], ["!", ["and", "c1", "c2"]],
+            ["and", "c1", ["and", "c2", "c3"]], ["or", "c1", ["or", "c2", "c3"]], ["or", ["and", "c1", "c2"], ["!", "c3"]],
+            ["and", "c1", ["!", ["or", "c2", ["<", "x", 0]]]], ["!", ["or", "c1", ["and", "c2", "c3"]]]]
+    for g in comp:
+        for other in (None, "c1", ["!", g], g):
+            for dep in ((), ("s0",)):
+                for loops2 in (None, [["i", 0, "n"]]):
+                    st = [{"id": "s0", "kind": "assign", "deps": [], "guard": other},
+                          {"id": "s1", "kind": "assign", "deps": list(dep), "guard": g},
+                          {"id": "s2", "kind": "call", "deps": ["s1"], "guard": ["!", g]}]
+                    if loops2:
+                        st[1]["loops"] = loops2
+                    run({"stmts": st}, "compound_guards")
     # different guards whose hashes collide in CPython (hash(-1) == hash(-2)): guards are the same only if they are EQUAL
     for ga, gb in ((["==", "m", -1], ["==", "m", -2]), (["<", "x", -1], ["<", "x", -2]), (["==", "m", -2], ["==", "m", -1])):
         for third in (["!", gb], ga, None):
